@@ -228,6 +228,28 @@ func instrsDeep(f *ssa.Function, fn func(ssa.Instruction)) {
 	walk(f, 0)
 }
 
+// callsInDeep lists the calls of f and of the single-caller helpers it
+// calls (pieces of f).
+func callsInDeep(f *ssa.Function) []ssa.CallInstruction {
+	var out []ssa.CallInstruction
+	instrsDeep(f, func(i ssa.Instruction) {
+		if ci, ok := i.(ssa.CallInstruction); ok {
+			out = append(out, ci)
+		}
+	})
+	return out
+}
+
+// findInner is findCalls looking also into the single-caller helpers f calls;
+// it returns the matching calls themselves (wherever they live).
+func findInner(f *ssa.Function, pats ...string) []ssa.CallInstruction {
+	var out []ssa.CallInstruction
+	for _, dc := range findCallsDeep(f, pats...) {
+		out = append(out, dc.Inner)
+	}
+	return out
+}
+
 // findCallsDeepAny is findCallsDeep with an arbitrary predicate.
 func findCallsDeepAny(f *ssa.Function, match func(g *ssa.Function, ci ssa.CallInstruction) bool) []deepCall {
 	var out []deepCall
